@@ -615,6 +615,7 @@ async fn run() {
     t.emit(json!({"ev":"Reset","run":1,"src":"tlc","cases":cases.len(),"seed":seed}));
     // serve the commands until every call has returned
     let started = Instant::now();
+    let mut last_progress = Instant::now();
     loop {
         let mut progressed = false;
         for w in worlds.iter_mut() {
@@ -671,6 +672,19 @@ async fn run() {
             }
         }
         if all {
+            break;
+        }
+        if progressed {
+            last_progress = Instant::now();
+        } else if last_progress.elapsed().as_secs() > 90 {
+            // longer than any sleep of the code under test (back-off is capped at 32 s + jitter): these calls hang
+            for c in cases.iter_mut().filter(|c| c.result.is_none()) {
+                if let Some(h) = c.handle.take() {
+                    h.abort();
+                }
+                c.total_ms = c.t0.elapsed().as_millis();
+                c.result = Some(json!({"kind":"Panic","e":"Hung"}));
+            }
             break;
         }
         if progressed {
